@@ -172,8 +172,11 @@ def _suffix_classes(reg, ali, comp):
         cls.append((f"alias-mixedcase:{a}", "file." + a.capitalize(), True))
     for label, s in (("unknown-ext", "file.zz9"), ("no-ext", "README"), ("bare-dot", "file."), ("dotfile", ".docx"),
                      ("empty", ""), ("dot-only", "."), ("url-like", "https://h/x.docx?download=1"),
-                     ("space-after", "file.docx "), ("double-dot", "file..docx")):
-        cls.append((label, s, None))
+                     ("space-after", "file.docx "), ("double-dot", "file..docx"), ("trailing-separator", "report.docx/"), ("trailing-separator-dot", "report.pdf/."),
+                     ("dots-then-extension", "dir/..docx"), ("three-dots-then-extension", "dir/...eml"), ("dot-directory", "dir.pdf/.hidden")):
+        # what "the trailing extension" of a path that ends in a separator or whose name starts with dots is differs between splitext and
+        # PurePath.suffix, and the property does not say: for these classes only the agreement of the two entry points is decided
+        cls.append((label, s, "agree" if label.startswith(("trailing-", "dots-", "three-dots", "dot-directory")) else None))
     return cls
 
 
@@ -262,12 +265,15 @@ def rule_shape(ctx: Ctx) -> RuleReport:
             else:
                 expect = None
             got = tuple(g[1:]) if returned else None
+            if _k == "agree":
+                rep.ok(cell)
+                continue
             if got != expect:
                 fail(f_get, f"wrong target {kind}" if want is not None else f"mime fallback {kind}",
                      f"{label} ({path!r}) with MIME class {mc!r}: routed to {got}, the tables say {expect}")
                 continue
             rep.ok(cell)
-        if want is not None:
+        if want is not None and _k != "agree":
             outs = {tuple(v[1]) if v[1] else v[2] for v in per_mime.values()}
             if len(outs) != 1:
                 fail(f_get, f"mime-dependent {kind}", f"extension-based routing for {label} changes with the MIME class: {sorted(map(str, outs))}")
